@@ -832,14 +832,14 @@ func (x *c19Gen) pairMuts(s *c19Site) []c19Mut {
 // building a case
 
 type c19FieldCase struct {
-	Desc   string            `json:"desc"`
-	Format string            `json:"format,omitempty"` // "" = JSON file, "yaml" = the same document as a .yaml file
-	Starts  int  `json:"starts,omitempty"`   // number of load->dump rounds (default 2)
-	OneDump bool `json:"one_dump,omitempty"` // each start persists exactly once (no InheritMosnconfig), so the state after every single dump is seen
-	Fields []string          `json:"fields"`
-	Config interface{}       `json:"config"`
-	Files  map[string]string `json:"files,omitempty"`
-	Expect []c19Expect       `json:"expect"`
+	Desc    string            `json:"desc"`
+	Format  string            `json:"format,omitempty"`   // "" = JSON file, "yaml" = the same document as a .yaml file
+	Starts  int               `json:"starts,omitempty"`   // number of load->dump rounds (default 2)
+	OneDump bool              `json:"one_dump,omitempty"` // each start persists exactly once (no InheritMosnconfig), so the state after every single dump is seen
+	Fields  []string          `json:"fields"`
+	Config  interface{}       `json:"config"`
+	Files   map[string]string `json:"files,omitempty"`
+	Expect  []c19Expect       `json:"expect"`
 }
 
 func c19SetAt(cur interface{}, path []c19TStep, a c19Assign) interface{} {
@@ -1122,8 +1122,14 @@ func (x *c19Gen) specialCases() []c19FieldCase {
 				Sets:  []c19Assign{{Path: s.Path, Value: c19TMP + "/dyn_routers"}},
 				Files: files}
 			m.Expect = append(x.expectFor(s.ID, s.Path, c19TMP+"/dyn_routers", "eq", ""), c19FileExpects(s.ID+" [directory with "+desc+"]", files)...)
-			out = append(out, c19Build(m))
+			out = append(out, c19Rounds(c19Build(m))...)
 		}
+		mk("a virtual host with a plain name", "c19plain")
+		mk("a virtual host name containing the path separator", "c19ns/vh")
+		mk("a virtual host name containing several path separators", "c19/a/b/c")
+		mk("a virtual host name starting with the path separator", "/c19lead")
+		mk("a virtual host name longer than the file name limit", long+"A")
+		mk("plain, separator and over-long virtual host names together", "c19plain", "c19ns/vh", "c19/a/b/c", long+"A")
 		mk("two virtual hosts", "c19VhA", "c19VhB")
 		mk("a virtual host without a name", "")
 		mk("virtual host names that differ only in the path separator", "c19/vh", "c19_vh")
@@ -1142,8 +1148,14 @@ func (x *c19Gen) specialCases() []c19FieldCase {
 				Sets:  []c19Assign{{Path: s.Path, Value: c19TMP + "/dyn_clusters"}},
 				Files: files}
 			m.Expect = append(x.expectFor(s.ID, s.Path, c19TMP+"/dyn_clusters", "eq", ""), c19FileExpects(s.ID+" [directory with "+desc+"]", files)...)
-			out = append(out, c19Build(m))
+			out = append(out, c19Rounds(c19Build(m))...)
 		}
+		mk("a cluster with a plain name", "c19plain")
+		mk("a cluster name containing the path separator", "c19ns/cl")
+		mk("a cluster name containing several path separators", "c19/a/b/c")
+		mk("a cluster name starting with the path separator", "/c19lead")
+		mk("a cluster name longer than the file name limit", long+"A")
+		mk("plain, separator and over-long cluster names together", "c19plain", "c19ns/cl", "c19/a/b/c", long+"A")
 		mk("two clusters", "c19ClA", "c19ClB")
 		mk("cluster names that differ only in the path separator", "c19/cl", "c19_cl")
 		mk("cluster names longer than the file name limit", long+"A", long+"B")
@@ -1170,6 +1182,20 @@ func (x *c19Gen) specialCases() []c19FieldCase {
 		out = append(out, c19Build(m))
 	}
 	return out
+}
+
+// c19Rounds: a directory-mode case is run for three load->dump rounds into
+// the SAME directory (every dump rewrites the files and sweeps the ones it
+// thinks stale), once with one dump per start - the directory and the
+// reloaded configuration are compared with the first after every single dump
+// - and once with the usual two dumps per start (hot-upgrade bytes + file).
+func c19Rounds(c c19FieldCase) []c19FieldCase {
+	a, b := c, c
+	a.Starts, a.OneDump = 3, true
+	a.Desc += " (3 rounds, one dump per start)"
+	b.Starts = 3
+	b.Desc += " (3 rounds, two dumps per start)"
+	return []c19FieldCase{a, b}
 }
 
 // c19AbsentCases: the base with one of its scalar fields left out (listener
@@ -1816,5 +1842,6 @@ func TestVerifC19Fields(t *testing.T) {
 		"a configuration = minimal valid base (1 listener with a proxy filter, 1 router, 1 cluster with 1 host) + field(s) set; alphabets per JSON type: durations {1s,1500ms}(+0s for pointers), byte sizes {1KB,1536B}, bool {true}(+false for pointers), integers {3,70000}(+0 for pointers), strings = unique marker, maps with 1-2 entries, scalar lists of length 1 and 2, struct lists of length 2, {} for pointer structs; per-field overrides where the parsers accept only certain values (addresses, cluster/lb types, TLS material, log paths, directory modes with their files); "+
 			"each start of MOSN is a fresh process; a configuration whose first start does not complete is counted in notes.rejected_by_mosn_first_start and not judged; "+
 			"compared: every value set in the input is in the first dump at its JSON path with the same JSON type and value (durations/sizes by value; tls_context is expected at tls_context_set[0]); the dump loads again; second dump == first dump (canonical); persisted file == InheritMosnconfig bytes; "+
+			"directory modes (router_configs / clusters_configs): element names plain / with one, several, a leading path separator / longer than 128 characters / colliding, three load->dump rounds into the same directory, compared after every single dump; "+
 			"not compared: presence of {} for pointer structs that have fields; distinct = configurations")
 }
